@@ -31,34 +31,157 @@ theorem field_eq_of_describes {r t : Fields} (hd : describes r t = true) (x : Bo
   have := (describes_iff.1 hd).1
   cases r; cases t; simp_all
 
-theorem restartEquiv_of_inv {s : State} (h : Inv s) (hp : s.pending = []) (resume : Bool) :
-    restartEquiv resume (observe s) (observe (reopen s resume)) = true := by
-  have hre : reopen s resume = openOn s.lo s.hi resume (updateStats s).db := by
-    unfold reopen; rw [if_neg (by simp [hp])]
+theorem foldl_load_dead (resume : Bool) : ∀ (rest : List (String × Fields)) (s : State),
+    (rest.foldl (loadOne resume) s).dead = s.dead ∧ (rest.foldl (loadOne resume) s).invalid = s.invalid ∧
+    (rest.foldl (loadOne resume) s).pending = s.pending
+  | [], _ => ⟨rfl, rfl, rfl⟩
+  | e :: rest, s => by
+    rw [List.foldl_cons]
+    obtain ⟨h1, h2, h3⟩ := foldl_load_dead resume rest (loadOne resume s e)
+    exact ⟨h1, h2, h3⟩
+
+theorem openOn_dead (lo hi : Nat) (resume : Bool) (db : List (String × Fields)) :
+    (openOn lo hi resume db).dead = [] ∧ (openOn lo hi resume db).invalid = [] ∧ (openOn lo hi resume db).pending = [] := by
+  unfold openOn
+  obtain ⟨h1, h2, h3⟩ := foldl_load_dead resume db { init lo hi with db := db }
+  exact ⟨h1, h2, h3⟩
+
+theorem dbGet_isSome_of_mem {l : List (String × Fields)} {k : String} {r : Fields} (h : (k, r) ∈ l) :
+    (dbGet l k).isSome = true := by
+  unfold dbGet
+  rw [Option.isSome_map, List.find?_isSome]
+  exact ⟨(k, r), h, by simp⟩
+
+/-- The pieces of the state after a restart in which every record that failed before fails again. -/
+theorem reopen_eq {s : State} (hp : s.pending = []) (resume : Bool) (bad : List String)
+    (hb : ∀ e ∈ s.dead, e.1 ∈ bad) :
+    reopen s resume bad =
+      { openOn s.lo s.hi resume ((updateStats s).db.filter (fun e => !bad.contains e.1)) with
+        dead := ((updateStats s).db ++ s.dead).filter (fun e => bad.contains e.1),
+        invalid := (((updateStats s).db ++ s.dead).filter (fun e => bad.contains e.1)).map (·.1) } := by
+  unfold reopen
+  rw [if_neg (by simp [hp])]
+  dsimp only
+  rw [reopen_good bad hb]
+
+theorem restartEquiv_of_inv {s : State} (h : Inv s) (hp : s.pending = []) (resume : Bool) (bad : List String)
+    (hb : ∀ e ∈ s.dead, e.1 ∈ bad) :
+    restartEquiv resume bad (observe s) (observe (reopen s resume bad)) = true := by
+  have hre := reopen_eq hp resume bad hb
   have h2 := inv_updateStats h
-  obtain ⟨hreg, hdb, _, _⟩ := openOn_state s.lo s.hi resume (updateStats s).db h2.dbIds_nodup
-  have hinv := inv_reopen h resume
-  unfold restartEquiv observe
+  have hsub : ((updateStats s).db.filter (fun e => !bad.contains e.1)).Sublist (updateStats s).db := List.filter_sublist
+  have hgn : (((updateStats s).db.filter (fun e => !bad.contains e.1)).map (·.1)).Nodup := (hsub.map _).nodup h2.dbIds_nodup
+  obtain ⟨hreg, hdb, hlo, hhi⟩ := openOn_state s.lo s.hi resume _ hgn
+  obtain ⟨_, _, hpend⟩ := openOn_dead s.lo s.hi resume ((updateStats s).db.filter (fun e => !bad.contains e.1))
+  have hinv := inv_reopen h resume bad hb
+  have h3 := h2.dbIds_perm
+  have hp2 : (updateStats s).pending = [] := hp
+  rw [hp2] at h3
+  simp only [written, List.filter_nil, List.map_nil, List.append_nil] at h3
+  have hsig := h2.dbsig
+  rw [hp2] at hsig
+  simp only [written, List.filter_nil, List.map_nil, List.append_nil] at hsig
+  -- ids of the registry after the restart
+  have hregids : ∀ id, id ∈ (reopen s resume bad).reg.map (·.id) → bad.contains id = false ∧ id ∈ (updateStats s).dbIds := by
+    intro id hid
+    rw [hre] at hid
+    change id ∈ (openOn s.lo s.hi resume _).reg.map (·.id) at hid
+    rw [hreg] at hid
+    obtain ⟨t', ht', rfl⟩ := List.mem_map.1 hid
+    obtain ⟨e, he, rfl⟩ := List.mem_map.1 (List.mem_reverse.1 ht')
+    have := List.mem_filter.1 he
+    exact ⟨by simpa [loaded] using this.2, List.mem_map_of_mem (f := (·.1)) this.1⟩
+  unfold restartEquiv
   simp only [Bool.and_eq_true, List.isPerm_iff, List.all_eq_true]
   refine ⟨?_, ?_⟩
-  · rw [hre, hreg]
-    have h3 := h2.dbIds_perm
-    have hp2 : (updateStats s).pending = [] := hp
-    rw [hp2] at h3
-    simp only [written, List.filter_nil, List.map_nil, List.append_nil] at h3
-    rw [List.map_reverse]
+  · show ((reopen s resume bad).reg.map (·.id)).Perm ((s.reg.filter (fun t => !bad.contains t.id)).map (·.id))
+    rw [hre]
+    change ((openOn s.lo s.hi resume _).reg.map (·.id)).Perm _
+    rw [hreg, List.map_reverse]
     refine (List.reverse_perm _).trans ?_
-    simpa [List.map_map, Function.comp_def, loaded, State.dbIds, State.regIds, updateStats] using h3
+    rw [List.map_map]
+    have e1 : ((updateStats s).db.filter (fun e => !bad.contains e.1)).map ((fun t : Torrent => t.id) ∘ loaded resume) =
+        ((updateStats s).dbIds).filter (fun i => !bad.contains i) := by
+      rw [State.dbIds, List.filter_map]; rfl
+    have e2 : (s.reg.filter (fun t => !bad.contains t.id)).map (·.id) = (s.regIds).filter (fun i => !bad.contains i) := by
+      rw [State.regIds, List.filter_map]; rfl
+    rw [e1, e2]
+    exact h3.filter _
   · intro t ht
     obtain ⟨r, hr, hd⟩ := h.synced t ht
-    have hmem : loaded resume (t.id, { r with cnt := t.f.cnt }) ∈ (reopen s resume).reg := by
-      rw [hre, hreg]
-      exact List.mem_reverse.2 (List.mem_map_of_mem (f := loaded resume) (mem_updateStats_db h ht hr))
-    have hget := regGet_of_mem hinv.regIds_nodup hmem
-    simp only [loaded] at hget
-    rw [hget, dbGet_of_mem h.dbIds_nodup hr]
-    simp only [decide_eq_true_eq]
-    exact field_eq_of_describes hd _
+    have hrec := mem_updateStats_db h ht hr
+    by_cases hbad : bad.contains t.id = true
+    · rw [if_pos hbad]
+      simp only [Bool.and_eq_true]
+      have hfailed : (t.id, { r with cnt := t.f.cnt }) ∈ ((updateStats s).db ++ s.dead).filter (fun e => bad.contains e.1) :=
+        List.mem_filter.2 ⟨List.mem_append_left _ hrec, hbad⟩
+      have hnone : regGet (reopen s resume bad).reg t.id = none := by
+        apply regGet_eq_none
+        intro hc
+        have := (hregids t.id hc).1
+        rw [hbad] at this; cases this
+      refine ⟨⟨⟨?_, ?_⟩, ?_⟩, ?_⟩
+      · show (regGet (reopen s resume bad).reg t.id).isNone = true
+        rw [hnone]; rfl
+      · show (reopen s resume bad).invalid.contains t.id = true
+        rw [hre]
+        simp only [List.contains_iff_mem]
+        exact List.mem_map_of_mem (f := (·.1)) hfailed
+      · show (dbGet ((reopen s resume bad).db ++ (reopen s resume bad).dead) t.id).isSome = true
+        apply dbGet_isSome_of_mem (r := { r with cnt := t.f.cnt })
+        rw [hre]
+        exact List.mem_append_right _ hfailed
+      · show (reopen s resume bad).free.contains t.f.port = true
+        simp only [List.contains_iff_mem]
+        have hrange : (reopen s resume bad).range = s.range := by
+          rw [hre]; unfold State.range
+          change List.range' (openOn s.lo s.hi resume _).lo ((openOn s.lo s.hi resume _).hi - (openOn s.lo s.hi resume _).lo) = _
+          rw [hlo, hhi]
+        have hpr : t.f.port ∈ (reopen s resume bad).range := by rw [hrange]; exact h.regPort_mem_range ht
+        have hpe : (reopen s resume bad).pending = [] := by rw [hre]; exact hpend
+        have hmem := (hinv.ports.mem_iff).2 hpr
+        rw [hpe] at hmem
+        simp only [List.map_nil, List.append_nil] at hmem
+        rcases List.mem_append.1 hmem with h1 | h1
+        · exact h1
+        · exfalso
+          obtain ⟨t', ht', hpt⟩ := List.mem_map.1 h1
+          have hidt' := hregids t'.id (List.mem_map_of_mem (f := (·.id)) ht')
+          -- t' has a record in the database with the port of t: it is t's record
+          rw [hre] at ht'
+          change t' ∈ (openOn s.lo s.hi resume _).reg at ht'
+          rw [hreg] at ht'
+          obtain ⟨e, he, rfl⟩ := List.mem_map.1 (List.mem_reverse.1 ht')
+          have hedb := (List.mem_filter.1 he).1
+          have : (e.1, e.2.port) ∈ (updateStats s).reg.map (fun t => (t.id, t.f.port)) :=
+            (hsig.mem_iff).1 (List.mem_map_of_mem (f := fun e => (e.1, e.2.port)) hedb)
+          obtain ⟨t2, ht2, he2⟩ := List.mem_map.1 this
+          have ht2 : t2 ∈ s.reg := ht2
+          simp only [Prod.mk.injEq] at he2
+          have hp2 : t2.f.port = t.f.port := by rw [he2.2]; simpa [loaded] using hpt
+          have : t2 = t := eq_of_nodup_map (fun x : Torrent => x.f.port) h.regPorts_nodup ht2 ht hp2
+          subst this
+          have := hidt'.1
+          simp only [loaded] at this
+          rw [← he2.1, hbad] at this
+          cases this
+    · rw [if_neg hbad]
+      have hbad : bad.contains t.id = false := by simpa using hbad
+      have hmem : loaded resume (t.id, { r with cnt := t.f.cnt }) ∈ (reopen s resume bad).reg := by
+        rw [hre]
+        change _ ∈ (openOn s.lo s.hi resume _).reg
+        rw [hreg]
+        refine List.mem_reverse.2 (List.mem_map_of_mem (f := loaded resume) (List.mem_filter.2 ⟨hrec, ?_⟩))
+        show (!bad.contains t.id) = true
+        rw [hbad]; rfl
+      have hget := regGet_of_mem hinv.regIds_nodup hmem
+      simp only [loaded] at hget
+      show (match regGet (reopen s resume bad).reg t.id, dbGet (s.db ++ s.dead) t.id with
+        | some t', some r => decide (t'.f = { t.f with started := resume && r.started })
+        | _, _ => false) = true
+      rw [hget, dbGet_append_left (dbGet_of_mem h.dbIds_nodup hr)]
+      simp only [decide_eq_true_eq]
+      exact field_eq_of_describes hd _
 
 theorem compact_ok {s : State} (h : Inv s) :
     compact s = some ((s.reg.filter (·.f.hasInfo)).map fun t => (t.id, compactRec t ((dbGet s.db t.id).getD t.f))) := by
@@ -94,7 +217,7 @@ theorem compactEquiv_of_inv {s : State} (h : Inv s) :
     rw [hg]; rfl
   have hn : (((s.reg.filter (·.f.hasInfo)).map fun t => (t.id, compactRec t ((dbGet s.db t.id).getD t.f))).map (·.1)).Nodup := by
     rw [hkeys]; exact ((List.filter_sublist).map _).nodup h.regIds_nodup
-  rw [dbGet_of_mem hn hmem, hg]
+  rw [dbGet_of_mem hn hmem, dbGet_append_left hg]
   simp only [decide_eq_true_eq]
   exact compactRec_eq hd t.id
 
@@ -102,7 +225,7 @@ theorem compactEquiv_of_inv {s : State} (h : Inv s) :
 with the same fields; torrents without metadata are gone. -/
 theorem compactSwap_equiv {s : State} (h : Inv s) (hp : s.pending = []) (resume : Bool) :
     ∃ c, compact s = some c ∧
-      restartEquiv resume { observe s with live := s.reg.filter (·.f.hasInfo), db := c }
+      restartEquiv resume [] { observe s with live := s.reg.filter (·.f.hasInfo), db := c }
         (observe (compactSwap s resume)) = true := by
   refine ⟨_, compact_ok h, ?_⟩
   have hsw : compactSwap s resume = openOn s.lo s.hi resume
@@ -120,7 +243,9 @@ theorem compactSwap_equiv {s : State} (h : Inv s) (hp : s.pending = []) (resume 
   refine ⟨?_, ?_⟩
   · rw [hsw, hreg, List.map_reverse]
     refine (List.reverse_perm _).trans ?_
-    rw [List.map_map, List.map_map]
+    have hnil : (s.reg.filter (·.f.hasInfo)).filter (fun t => !([] : List String).contains t.id) = s.reg.filter (·.f.hasInfo) :=
+      List.filter_eq_self.2 (fun _ _ => by simp)
+    rw [hnil, List.map_map, List.map_map]
     exact List.Perm.refl _
   · intro t ht
     obtain ⟨r, hr, hd⟩ := h.synced t (List.mem_filter.1 ht).1
@@ -134,7 +259,7 @@ theorem compactSwap_equiv {s : State} (h : Inv s) (hp : s.pending = []) (resume 
       exact List.mem_reverse.2 (List.mem_map_of_mem (f := loaded resume) hmemc)
     have hget := regGet_of_mem hinv.regIds_nodup hmem
     simp only [loaded] at hget
-    rw [hget, dbGet_of_mem hn hmemc]
+    rw [if_neg (by simp), hget, dbGet_of_mem hn hmemc]
     simp only [decide_eq_true_eq]
     rw [compactRec_eq hd t.id]
     exact field_eq_of_describes hd _
